@@ -1,7 +1,8 @@
 """Re-run every stored seeded change against the current /repo tree and all claimed checks; write seeded/MATRIX.md (+ matrix.json).
 
-For each seeded/<name>/patch.diff: `git -C /repo apply`, run the quick tier of all claimed properties in parallel, `git -C /repo checkout -- .`.
-Never leaves /repo modified; refuses to start when /repo has local modifications.  Evidence files are restored from a clean run at the end.
+For each seeded/<name>/patch.diff: a scratch worktree of /repo's HEAD (under the system temp directory, removed afterwards), `git apply` there, the
+quick tier of all claimed properties run against it (VERIF_REPO); /repo itself is never touched.  Refuses to start when /repo has local
+modifications (the worktrees are taken from HEAD).  Evidence files are restored from a clean run at the end.
 """
 
 from __future__ import annotations
@@ -44,21 +45,46 @@ def main() -> int:
         return 2
     rows = []
     seeds = sorted(d for d in (VERIF / "seeded").iterdir() if d.is_dir() and (d / "patch.diff").exists() and (not only or d.name in only))
-    for d in seeds:
+    # each seed is applied in its own scratch worktree (outside /repo and /verif, removed afterwards) and the checks read that tree through
+    # VERIF_REPO; a few seeds run side by side so that the cores are not idle while the slowest check of one seed finishes
+    import os
+    import shutil
+    import tempfile
+
+    scratch = Path(tempfile.mkdtemp(prefix="verif-matrix-"))
+
+    def one_seed(d: Path) -> dict:
         meta = json.loads((d / "meta.json").read_text())
         row = {"seed": d.name, "property": meta["property"], "summary": meta.get("summary", "")}
+        wt = scratch / d.name
+        sh(["git", "-C", str(REPO), "worktree", "add", "--detach", str(wt), "HEAD"])
         try:
-            a = sh(["git", "-C", str(REPO), "apply", str(d / "patch.diff")])
+            a = sh(["git", "-C", str(wt), "apply", str(d / "patch.diff")])
             row["applies"] = a.returncode == 0
             if a.returncode == 0:
-                res = run_checks(claimed)
+                env = dict(os.environ, VERIF_REPO=str(wt))
+
+                def one(p: str) -> tuple[str, int, list[str]]:
+                    r = subprocess.run([PY, "sa/check.py", p], cwd=VERIF, capture_output=True, text=True, timeout=3600, check=False, env=env)
+                    lines = [l.strip() for l in r.stdout.splitlines() if l.startswith(("  rule ", "ANALYSIS-ERROR"))]
+                    return p, r.returncode, lines[:3]
+
+                with ThreadPoolExecutor(max_workers=8) as ex:
+                    res = {p: (c, l) for p, c, l in ex.map(one, claimed)}
                 row["fired"] = {p: {"exit": c, "first": l[:1]} for p, (c, l) in res.items() if c != 0}
         finally:
-            sh(["git", "-C", str(REPO), "checkout", "--", "."])
+            sh(["git", "-C", str(REPO), "worktree", "remove", "--force", str(wt)])
         own = row.get("fired", {}).get(row["property"], {}).get("exit")
         row["own"] = own == 1
-        rows.append(row)
         print(d.name, "applies" if row["applies"] else "STALE", "own-property" if row["own"] else "-", sorted(row.get("fired", {})), flush=True)
+        return row
+
+    try:
+        with ThreadPoolExecutor(max_workers=int(os.environ.get("VERIF_MATRIX_JOBS", "3"))) as pool:
+            rows = list(pool.map(one_seed, seeds))
+    finally:
+        sh(["git", "-C", str(REPO), "worktree", "prune"])
+        shutil.rmtree(scratch, ignore_errors=True)
     run_checks(claimed)  # restore evidence from the clean tree
     if not only:
         (VERIF / "seeded" / "matrix.json").write_text(json.dumps(rows, indent=1))
